@@ -151,3 +151,7 @@ Fixpoint sll_eqb (a b : list (list string)) : bool :=
    the endpoint chosen for a request is the one that goes into the backend-connection pool key *)
 Definition expected_vhost_http_group_facts : list string :=
   ["ConnectDialsByRoute"; "EndpointAssignedToOuter"; "PoolKeyHasEndpoint"].
+
+(* server/group/http.go: the endpoint id that goes into the reverse proxy's pool key is per JOIN (name#seq),
+   so a member name that comes back never reuses connections to the former holder's backend *)
+Definition expected_http_group_endpoint_facts : list string := ["EndpointPerJoin"; "ChooseReturnsJoinEndpoint"].
